@@ -282,6 +282,100 @@ func rintCase(digits string, dp int, trunc bool) {
 	}
 }
 
+// hexRoundingFamily enumerates the rounding situations of a hex float systematically:
+// kept-significand width K (53 = normal, 1..52 = subnormal result) and parity × guard bit ×
+// sticky pattern (none / only the lowest bit / only a middle bit / only the highest bit /
+// several) × number of sticky bits S (total significant bits K+1+S up to 64) × exponent class
+// (normal, the subnormal/min-normal boundary, the overflow boundary). Every combination is run
+// as a direct atofHex call and as text through the reader; mantissas with more than 64 bits are
+// written with digits beyond the 16th hex digit (trunc path).
+func hexRoundingFamily(r *hx.Rand, reps int) {
+	type shape struct{ K, S int }
+	var shapes []shape
+	for total := 54; total <= 64; total++ { // normal: 53 kept bits
+		shapes = append(shapes, shape{53, total - 54})
+	}
+	for _, K := range []int{1, 2, 3, 26, 51, 52} { // subnormal results: fewer kept bits
+		for _, S := range []int{0, 1, 2, 5, 10} {
+			if K+1+S <= 64 {
+				shapes = append(shapes, shape{K, S})
+			}
+		}
+	}
+	for rep := 0; rep < reps; rep++ {
+		for _, sh := range shapes {
+			for parity := 0; parity < 2; parity++ {
+				for guard := 0; guard < 2; guard++ {
+					for pat := 0; pat < 5; pat++ {
+						var sticky uint64
+						S := uint(sh.S)
+						switch {
+						case pat == 0 || S == 0:
+							sticky = 0
+						case pat == 1:
+							sticky = 1
+						case pat == 2:
+							sticky = 1 << (S / 2)
+						case pat == 3:
+							sticky = 1 << (S - 1)
+						default:
+							sticky = r.U64() & (1<<S - 1)
+						}
+						if pat > 0 && S == 0 {
+							continue
+						}
+						kept := uint64(1) << uint(sh.K-1)
+						if sh.K > 1 {
+							kept |= r.U64() & (1<<uint(sh.K-1) - 1)
+						}
+						if rep%2 == 1 && sh.K == 53 { // all ones: carry into the exponent
+							kept = 1<<53 - 1
+						}
+						kept = kept&^1 | uint64(parity)
+						if sh.K == 1 {
+							kept = 1
+						}
+						m := kept<<(1+S) | uint64(guard)<<S | sticky
+						low := 1 + int(S) // weight of the kept LSB is 2^(exp+low)
+						var exps []int
+						if sh.K == 53 {
+							exps = []int{r.Intn(1800) - 900 - low, -1074 - low, -1075 - low, 971 - low, 970 - low}
+						} else {
+							exps = []int{-1074 - low}
+						}
+						for _, e := range exps {
+							neg := r.Chance(1, 4)
+							hexCase(m, e, neg, false)
+							sign := ""
+							if neg {
+								sign = "-"
+							}
+							text := fmt.Sprintf("%s0x%xp%d", sign, m, e)
+							if r.Chance(1, 3) { // move the point
+								h := fmt.Sprintf("%x", m)
+								k := r.Intn(len(h) + 1)
+								text = fmt.Sprintf("%s0x%s.%sp%d", sign, h[:k], h[k:], e+4*(len(h)-k))
+							}
+							lineCase("1", text, "hexfam", true)
+							if sh.K+1+int(S) == 64 && m>>60 != 0 { // more than 64 bits: digits beyond the 16th
+								extra := hx.Pick(r, []string{"0", "1", "8", "0001", "80", "00"})
+								lineCase("1", fmt.Sprintf("%s0x%x%sp%d", sign, m, extra, e-4*len(extra)), "hexfam", true)
+							}
+						}
+					}
+				}
+			}
+		}
+	}
+	// random 16-hex-digit mantissas
+	for i := 0; i < 400*reps; i++ {
+		m := r.U64() | 1<<63
+		e := r.Intn(2200) - 1100
+		hexCase(m, e, false, false)
+		lineCase("1", fmt.Sprintf("0x%xp%d", m, e), "hexfam", true)
+	}
+}
+
 func tableCase() {
 	t := bytesconv.VerifPow10Table()
 	var parts []string
@@ -703,7 +797,7 @@ func main() {
 		"1_000", "1__0", "_1", "1_", "1_.0", "1._0", "1_e1", "1e_1", "1e1_", "1e+_1", "1e1_0", "0x_1p0", "0_x1p0", "0x1_p0", "0x1p_0", "0x1p0_0", "0x_.8p0", "0b1", "0b_1", "0o1", "0_1",
 		"9223372036854775797", "9223372036854775798", "9223372036854775799", "9223372036854775807", "9223372036854775808", "922337203685477579", "922337203685477580", "922337203685477581",
 		"9007199254740993", "9007199254740992", "4503599627370495", "4503599627370496", "4503599627370497e1", "4503599627370495e22", "1e22", "1e23", "1e37", "1e38", "4503599627370495e37", "1e-22", "1e-23", "123456789012345678901234567890",
-		"1e10000", "1e-10000", "0e10000", "0e99999", "0x0p99999", "0x1p1024", "0x1p1023", "0x1.fffffffffffff8p1023", "0x1.fffffffffffff7ffp1023", "0x1p-1074", "0x1p-1075", "0x1.00000000000001p-1075", "0x1p-1076", "0x1.8p-1074", "0x0.0000000000001p-1022", "0x1.fffffffffffffp-1023"} {
+		"1e10000", "1e-10000", "0e10000", "0e99999", "0x0p99999", "0x1p1024", "0x1p1023", "0x1.fffffffffffff8p1023", "0x1.fffffffffffff7ffp1023", "0x1p-1074", "0x1p-1075", "0x1.00000000000001p-1075", "0x1p-1076", "0x1.8p-1074", "0x0.0000000000001p-1022", "0x1.fffffffffffffp-1023", "0x1.000000000000082p0", "0x1.000000000000080p0", "0x1.000000000000081p0", "0x1.0000000000000c2p0"} {
 		lineCase("1", s, "corpus", true)
 	}
 	for _, s := range []string{"0", "1", "-1", "+1", "9223372036854775807", "9223372036854775808", "-9223372036854775808", "-9223372036854775809", "999999999999999999", "1000000000000000000", "0000000000000000001", "+", "-", "1_0", "0x1"} {
@@ -730,6 +824,8 @@ func main() {
 			lineCase(strconv.Itoa(1+r.Intn(1000)), num, tag, true)
 		}
 	}
+	hexRoundingFamily(r, hx.N(2, 12))
+
 	// rounding step of the slow path
 	for i := 0; i < hx.N(4000, 80000); i++ {
 		nd := r.Intn(24)
